@@ -450,6 +450,58 @@ func c18r3(c *core.Ctx) {
 			}
 		}
 	})
+	// the same key assembled in a buffer: hex.Encode(key, []byte(name)) fills key[:EncodedLen(len(name))], the constant suffix is copied
+	// behind it, and the buffer is exactly that long
+	if !full {
+		var enc *ssa.Call
+		core.Instrs(tk, func(i ssa.Instruction) {
+			if call, ok := i.(*ssa.Call); ok && core.IsCall(call, "encoding/hex.Encode") {
+				if core.AnySource(call.Call.Args[1], func(sv ssa.Value) bool { return sv == ssa.Value(tk.Params[0]) }) || operandReaches(call.Call.Args[1], tk.Params[0], 4) {
+					enc = call
+				}
+			}
+		})
+		if enc != nil {
+			isEncLen := func(v ssa.Value) bool {
+				call, ok := core.StripConv(v).(*ssa.Call)
+				return ok && core.IsCall(call, "encoding/hex.EncodedLen") && operandReaches(call.Call.Args[0], tk.Params[0], 4)
+			}
+			mk, _ := core.StripConv(enc.Call.Args[0]).(*ssa.MakeSlice)
+			okCopy := false
+			sfx := ""
+			if mk != nil {
+				for _, r := range *mk.Referrers() {
+					sl, ok := r.(*ssa.Slice)
+					if !ok || sl.Low == nil || sl.High != nil || !isEncLen(sl.Low) {
+						continue
+					}
+					for _, rr := range *sl.Referrers() {
+						if cp, ok := rr.(*ssa.Call); ok {
+							if b, isB := cp.Call.Value.(*ssa.Builtin); isB && b.Name() == "copy" && cp.Call.Args[0] == ssa.Value(sl) {
+								if k, isK := core.ConstString(cp.Call.Args[1]); isK {
+									okCopy, sfx = true, k
+								}
+							}
+						}
+					}
+				}
+			}
+			okLen := false
+			if mk != nil {
+				if bo, ok := core.StripConv(mk.Len).(*ssa.BinOp); ok && bo.Op == token.ADD {
+					for _, pr := range [][2]ssa.Value{{bo.X, bo.Y}, {bo.Y, bo.X}} {
+						if k, isK := core.ConstInt(pr[1]); isK && isEncLen(pr[0]) && k == int64(len(sfx)) {
+							okLen = true
+						}
+					}
+				}
+			}
+			retOK := returnsOnly(tk, func(v ssa.Value) bool { return v == ssa.Value(mk) })
+			if okCopy && okLen && retOK {
+				full, suffix, lossy = true, sfx, false
+			}
+		}
+	}
 	c.Check(full && !lossy && suffix != "", "entity-key-injective@"+fname(tk), tk.Pos(), "key = hex(name) in full + "+fmt.Sprintf("%q", suffix),
 		"the entity key is not the complete hex encoding of the name plus a constant suffix (it is truncated, hashed or otherwise shortened): different names can map to the same file")
 	c.Check(!strings.Contains(suffix, ":") && suffix != "", "entity-key-suffix-safe", tk.Pos(), "the suffix contains no ':' (which the path function strips)", "the entity suffix contains ':' or is empty")
@@ -814,17 +866,21 @@ func c19r2(c *core.Ctx) {
 
 func errNilOfAny(pred func(ssa.Instruction) bool, idx int) core.CondFact {
 	return core.IsNilFact(func(v ssa.Value) bool {
+		found := false
 		for _, s := range core.Sources(v) {
 			if call, ok := s.(*ssa.Call); ok && idx == 0 && pred(call) {
-				return true
+				found = true
+				continue
 			}
 			if e, ok := s.(*ssa.Extract); ok && e.Index == idx {
 				if call, ok := e.Tuple.(*ssa.Call); ok && pred(call) {
-					return true
+					found = true
+					continue
 				}
 			}
+			return false // a merged error variable is judged per incoming edge (core.Explore), not as a whole
 		}
-		return false
+		return found
 	})
 }
 
